@@ -54,7 +54,8 @@ type ccase struct {
 	Kind     string     `json:"kind"`
 	Init     initSpec   `json:"init"`
 	Progs    [][]cop    `json:"progs"`
-	Prefix   []int      `json:"prefix,omitempty"` // replay input: schedule to follow first
+	Tail     []cop      `json:"tail,omitempty"`   // issued by one more goroutine after all of Progs have returned
+	Prefix   []int      `json:"prefix,omitempty"` // replay input: schedule to follow first (parallel part)
 	Sched    []int      `json:"sched"`
 	Obs      []cobs     `json:"obs"`
 	Done     bool       `json:"done"`
@@ -155,9 +156,9 @@ type picker func(step int, s *logsched.Sched, n int) int
 const maxSteps = 600
 
 // runCase replays: first the prefix, then whatever pick says, until all goroutines returned.
-func runCase(in initSpec, progs [][]cop, prefix []int, pick picker) (sched []int, obs []cobs, done bool, kids []childObs, errs string) {
-	sched, obs, doneT, kids, errs := runCaseX(in, progs, prefix, pick, true)
-	done = true
+func runCase(in initSpec, progs [][]cop, tail []cop, prefix []int, pick picker) (sched []int, obs []cobs, done bool, kids []childObs, errs string) {
+	sched, obs, doneT, tailDone, kids, errs := runCaseX(in, progs, tail, prefix, pick, true)
+	done = tailDone
 	for _, d := range doneT {
 		done = done && d
 	}
@@ -166,7 +167,9 @@ func runCase(in initSpec, progs [][]cop, prefix []int, pick picker) (sched []int
 
 // runCaseX: pick == nil stops after the prefix; everyStep == false probes only at the end (one
 // entry in obs).  doneT tells which goroutines have returned.
-func runCaseX(in initSpec, progs [][]cop, prefix []int, pick picker, everyStep bool) (sched []int, obs []cobs, doneT []bool, kids []childObs, errs string) {
+// The tail (operations issued after all goroutines of progs have returned) is run by goroutine
+// number len(progs), started only then and stepped to its end; its steps are part of sched.
+func runCaseX(in initSpec, progs [][]cop, tail []cop, prefix []int, pick picker, everyStep bool) (sched []int, obs []cobs, doneT []bool, tailDone bool, kids []childObs, errs string) {
 	core, logs := observer.New(zapcore.Level(in.Level))
 	zap.ReplaceGlobals(zap.New(core))
 	var base context.Context
@@ -182,7 +185,7 @@ func runCaseX(in initSpec, progs [][]cop, prefix []int, pick picker, everyStep b
 		log.SetLevel(base, zapcore.Level(*in.Wrap))
 	}
 	n := len(progs)
-	s := logsched.New(n)
+	s := logsched.New(n + 1)
 	log.VerifYield = s.Yield
 	defer func() { log.VerifYield = nil; s.Abort() }()
 	doneT = make([]bool, n)
@@ -200,11 +203,9 @@ func runCaseX(in initSpec, progs [][]cop, prefix []int, pick picker, everyStep b
 	}
 	var born []kid
 	kids = []childObs{}
-	for t := 0; t < n; t++ {
-		t := t
+	body := func(t int, p []cop) func() {
 		cx := context.WithValue(base, otherKey{t}, t) // a distinct context sharing the holder
-		p := progs[t]
-		if err := s.Start(t, func() {
+		return func() {
 			for i, o := range p {
 				switch o.Op {
 				case "With":
@@ -215,12 +216,23 @@ func runCaseX(in initSpec, progs [][]cop, prefix []int, pick picker, everyStep b
 					log.SetLevel(cx, zapcore.Level(o.Level))
 				}
 			}
-		}); err != nil {
-			return sched, obs, flags(), kids, err.Error()
 		}
 	}
+	for t := 0; t < n; t++ {
+		if err := s.Start(t, body(t, progs[t])); err != nil {
+			return sched, obs, flags(), false, kids, err.Error()
+		}
+	}
+	parDone := func() bool {
+		for t := 0; t < n; t++ {
+			if !s.Done(t) {
+				return false
+			}
+		}
+		return true
+	}
 	for step := 0; step < maxSteps; step++ {
-		if step >= len(prefix) && (pick == nil || s.AllDone()) {
+		if step >= len(prefix) && (pick == nil || parDone()) {
 			break
 		}
 		var t int
@@ -229,13 +241,33 @@ func runCaseX(in initSpec, progs [][]cop, prefix []int, pick picker, everyStep b
 		} else {
 			t = pick(step, s, n)
 		}
+		if t < 0 || t >= n {
+			t = 0 // the tail goroutine is never scheduled here
+		}
 		if _, err := s.Step(t); err != nil {
-			return sched, obs, flags(), kids, err.Error()
+			return sched, obs, flags(), false, kids, err.Error()
 		}
 		sched = append(sched, t)
 		if everyStep {
 			obs = append(obs, probe(base, logs))
 		}
+	}
+	// the sequential tail: only once every goroutine of the parallel part has returned
+	tailDone = len(tail) == 0
+	if len(tail) > 0 && parDone() {
+		if err := s.Start(n, body(n, tail)); err != nil {
+			return sched, obs, flags(), false, kids, err.Error()
+		}
+		for k := 0; k < maxSteps && !s.Done(n); k++ {
+			if _, err := s.Step(n); err != nil {
+				return sched, obs, flags(), false, kids, err.Error()
+			}
+			sched = append(sched, n)
+			if everyStep {
+				obs = append(obs, probe(base, logs))
+			}
+		}
+		tailDone = s.Done(n)
 	}
 	if !everyStep {
 		obs = []cobs{probe(base, logs)}
@@ -243,7 +275,7 @@ func runCaseX(in initSpec, progs [][]cop, prefix []int, pick picker, everyStep b
 	for _, k := range born {
 		kids = append(kids, childObs{k.t, k.idx, probe(k.ctx, logs)})
 	}
-	return sched, obs, flags(), kids, ""
+	return sched, obs, flags(), tailDone, kids, ""
 }
 
 func running(s *logsched.Sched, n int) []int {
@@ -301,52 +333,60 @@ func gKids(ks []childObs) string {
 // does not know); the run stops generating cases, the plugin reports it.
 var schedErr string
 
-func emit(out *gal.Out, kind string, in initSpec, progs [][]cop, prefix []int, pick picker) {
+func emit(out *gal.Out, kind string, in initSpec, progs [][]cop, tail []cop, prefix []int, pick picker) {
 	if in.Fields == nil {
 		in.Fields = []uint64{}
 	}
+	if tail == nil {
+		tail = []cop{}
+	}
 	if finalOnly {
-		emitFinal(out, kind, in, progs, prefix, pick)
+		emitFinal(out, kind, in, progs, tail, prefix, pick)
 		return
 	}
-	sched, obs, done, kids, errs := runCase(in, progs, prefix, pick)
+	sched, obs, done, kids, errs := runCase(in, progs, tail, prefix, pick)
 	if errs != "" {
 		schedErr = errs
 	}
 	t := "({| cc_init := " + gCore(in) + "; cc_progs := " +
 		gal.ListOf(progs, func(p []cop) string { return gal.ListOf(p, gCop) }) +
+		"; cc_tail := " + gal.ListOf(tail, gCop) +
 		"; cc_sched := " + gal.ListOf(sched, func(t int) string { return fmt.Sprint(t) }) + "%nat" +
 		"; cc_obs := " + gal.ListOf(obs, gObs) + "; cc_done := " + gal.Bool(done) +
 		"; cc_children := " + gKids(kids) + " |})%N"
-	out.Case(t, ccase{Kind: kind, Init: in, Progs: progs, Prefix: prefix, Sched: sched, Obs: obs, Done: done, Children: kids, Err: errs})
+	out.Case(t, ccase{Kind: kind, Init: in, Progs: progs, Tail: tail, Prefix: prefix, Sched: sched, Obs: obs, Done: done, Children: kids, Err: errs})
 }
 
 // emitFinal runs prefix + round-robin completion and writes a final-state case (sc_case): only
 // the quiescent logger is judged, with the specification predicate final_ok — used when the
 // number of yields per call of the code under test differs from the model's programs.
-func emitFinal(out *gal.Out, kind string, in initSpec, progs [][]cop, prefix []int, pick picker) {
+func emitFinal(out *gal.Out, kind string, in initSpec, progs [][]cop, tail []cop, prefix []int, pick picker) {
 	if in.Fields == nil {
 		in.Fields = []uint64{}
 	}
-	sched, obs, doneT, kids, errs := runCaseX(in, progs, prefix, pick, false)
+	sched, obs, doneT, tailDone, kids, errs := runCaseX(in, progs, tail, prefix, pick, false)
 	if errs != "" {
 		schedErr = errs
 	}
-	done := errs == ""
+	done := errs == "" && tailDone
 	for _, d := range doneT {
 		done = done && d
 	}
-	writeFinal(out, kind, in, progs, sched, obs[len(obs)-1], kids, done, errs, 0)
+	writeFinal(out, kind, in, progs, tail, sched, obs[len(obs)-1], kids, done, errs, 0)
 }
 
-func writeFinal(out *gal.Out, kind string, in initSpec, progs [][]cop, sched []int, fin cobs, kids []childObs, done bool, errs string, explored int) {
+func writeFinal(out *gal.Out, kind string, in initSpec, progs [][]cop, tail []cop, sched []int, fin cobs, kids []childObs, done bool, errs string, explored int) {
 	if kids == nil {
 		kids = []childObs{}
 	}
+	if tail == nil {
+		tail = []cop{}
+	}
 	t := "({| sc_init := " + gCore(in) + "; sc_progs := " +
 		gal.ListOf(progs, func(p []cop) string { return gal.ListOf(p, gCop) }) +
+		"; sc_tail := " + gal.ListOf(tail, gCop) +
 		"; sc_final := " + gObs(fin) + "; sc_children := " + gKids(kids) + " |})%N"
-	out.Case(t, fcase{Kind: kind, Judge: "final", Init: in, Progs: progs, Sched: sched, Final: fin, Children: kids, Done: done, Err: errs, Explored: explored})
+	out.Case(t, fcase{Kind: kind, Judge: "final", Init: in, Progs: progs, Tail: tail, Sched: sched, Final: fin, Children: kids, Done: done, Err: errs, Explored: explored})
 }
 
 type fcase struct {
@@ -354,6 +394,7 @@ type fcase struct {
 	Judge    string     `json:"judge"`
 	Init     initSpec   `json:"init"`
 	Progs    [][]cop    `json:"progs"`
+	Tail     []cop      `json:"tail,omitempty"`
 	Sched    []int      `json:"sched"`
 	Final    cobs       `json:"final"`
 	Children []childObs `json:"children"`
@@ -364,15 +405,31 @@ type fcase struct {
 
 // suspicious mirrors final_ok of LogCtxJudge.v (the verdict itself is given by Coq): fields =
 // initial ++ a permutation of all added, level = that of a goroutine's last SetLevel.
-func suspicious(in initSpec, progs [][]cop, fin cobs, kids []childObs) bool {
+func suspicious(in initSpec, progs [][]cop, tail []cop, fin cobs, kids []childObs) bool {
+	all := append(append([][]cop(nil), progs...), tail)
 	for _, k := range kids {
-		if suspiciousChild(in, progs, k) {
+		if suspiciousChild(in, all, k) {
 			return true
 		}
 	}
 	if fin.Full != nil {
 		return true
 	}
+	// the tail's fields come last, in its order; its last SetLevel decides the level
+	var tf []uint64
+	tailLevel, tailSets := 0, false
+	for _, o := range tail {
+		switch o.Op {
+		case "With":
+			tf = append(tf, o.Fields...)
+		case "SetLevel":
+			tailLevel, tailSets = o.Level, true
+		}
+	}
+	if len(fin.Fields) < len(tf) || !same(fin.Fields[len(fin.Fields)-len(tf):], tf) {
+		return true
+	}
+	fin = cobs{Fields: fin.Fields[:len(fin.Fields)-len(tf)], Mask: fin.Mask}
 	want := map[uint64]int{}
 	nadd := 0
 	var lasts []int
@@ -399,6 +456,9 @@ func suspicious(in initSpec, progs [][]cop, fin cobs, kids []childObs) bool {
 			l = *in.Wrap
 		}
 		lasts = []int{l}
+	}
+	if tailSets {
+		lasts = []int{tailLevel}
 	}
 	if len(fin.Fields) != len(in.Fields)+nadd || !same(fin.Fields[:len(in.Fields)], in.Fields) {
 		return true
@@ -518,12 +578,36 @@ func search(out *gal.Out, budget, keep int, limit time.Duration) {
 	dbg := -1
 	inits := []initSpec{{Level: 0, Fields: []uint64{}}, {Level: 1, Fields: []uint64{9}, Wrap: &dbg}}
 	// smallest first: the four pairs of single calls (mixed pairs in both orders), then longer ones
-	catalogue := [][][]cop{
+	type entry struct {
+		progs [][]cop
+		tail  []cop
+	}
+	// smallest first: the pairs of single calls (mixed pairs in both orders); each pair also
+	// followed by a sequential tail that repeats the request of one of the two (a call made
+	// after both have returned must take effect whatever the overlap left behind); longer ones
+	var catalogue []entry
+	for _, pr := range [][][]cop{
 		{{w(1)}, {w(2)}},
 		{{w(1)}, {sl(2)}},
 		{{sl(2)}, {w(1)}},
 		{{sl(-1)}, {sl(2)}},
 		{{w(1)}, {ch(2)}},
+	} {
+		catalogue = append(catalogue, entry{pr, nil})
+	}
+	for _, pr := range [][][]cop{
+		{{sl(-1)}, {sl(2)}},
+		{{sl(1)}, {sl(2)}},
+		{{w(1)}, {sl(2)}},
+	} {
+		for _, p := range pr {
+			if p[0].Op == "SetLevel" {
+				catalogue = append(catalogue, entry{pr, []cop{p[0]}})
+			}
+		}
+		catalogue = append(catalogue, entry{pr, []cop{w(5)}})
+	}
+	for _, pr := range [][][]cop{
 		{{w(1), ch(3)}, {w(2)}},
 		{{w(1), w(3)}, {w(2)}},
 		{{w(1)}, {w(2), sl(2)}},
@@ -531,10 +615,13 @@ func search(out *gal.Out, budget, keep int, limit time.Duration) {
 		{{w(1), sl(1)}, {sl(2), w(2)}},
 		{{{Op: "With"}, w(1)}, {w(2)}},
 		{{sl(2), ch(3)}, {w(1), ch(4)}},
+	} {
+		catalogue = append(catalogue, entry{pr, nil})
 	}
 	type hit struct {
 		in    initSpec
 		progs [][]cop
+		tail  []cop
 		sched []int
 		fin   cobs
 		kids  []childObs
@@ -542,7 +629,8 @@ func search(out *gal.Out, budget, keep int, limit time.Duration) {
 	var hits []hit
 	var lastOK *hit
 	explored := 0
-	for _, progs := range catalogue {
+	for _, en := range catalogue {
+		progs, tail := en.progs, en.tail
 		for _, in := range inits {
 			var dfs func(prefix []int)
 			dfs = func(prefix []int) {
@@ -550,7 +638,7 @@ func search(out *gal.Out, budget, keep int, limit time.Duration) {
 					timedOut = true
 					return
 				}
-				sched, obs, doneT, kids, errs := runCaseX(in, progs, prefix, nil, false)
+				sched, obs, doneT, tailDone, kids, errs := runCaseX(in, progs, tail, prefix, nil, false)
 				if errs != "" {
 					schedErr, timedOut = errs, true
 					return
@@ -559,10 +647,10 @@ func search(out *gal.Out, budget, keep int, limit time.Duration) {
 				for _, d := range doneT {
 					all = all && d
 				}
-				if all {
+				if all && tailDone {
 					explored++
-					h := hit{in, progs, append([]int(nil), sched...), obs[0], kids}
-					if suspicious(in, progs, obs[0], kids) {
+					h := hit{in, progs, tail, append([]int(nil), sched...), obs[0], kids}
+					if suspicious(in, progs, tail, obs[0], kids) {
 						hits = append(hits, h)
 					} else {
 						lastOK = &h
@@ -594,14 +682,14 @@ func search(out *gal.Out, budget, keep int, limit time.Duration) {
 		hits = hits[:keep]
 	}
 	for _, h := range hits {
-		writeFinal(out, "search", h.in, h.progs, h.sched, h.fin, h.kids, true, "", explored)
+		writeFinal(out, "search", h.in, h.progs, h.tail, h.sched, h.fin, h.kids, true, "", explored)
 	}
 	if len(hits) == 0 && lastOK != nil {
 		kind := "search-clean"
 		if timedOut {
 			kind = "search-timeout"
 		}
-		writeFinal(out, kind, lastOK.in, lastOK.progs, lastOK.sched, lastOK.fin, lastOK.kids, true, schedErr, explored)
+		writeFinal(out, kind, lastOK.in, lastOK.progs, lastOK.tail, lastOK.sched, lastOK.fin, lastOK.kids, true, schedErr, explored)
 	}
 }
 
@@ -633,6 +721,54 @@ func (g *gen) level() int { return g.r.IntN(4) - 1 }
 
 // accumulate (-accumulate): the shared logger starts from 0..8 fields collected one call at a time.
 var accumulate bool
+
+// tail: operations issued after the parallel part (a third of the cases): requests that repeat
+// one made in the parallel part (the same level again, the same field again) or new ones.
+func (g *gen) tail(progs [][]cop) []cop {
+	if g.r.IntN(3) != 0 {
+		return nil
+	}
+	var all, sets []cop
+	for _, p := range progs {
+		for _, o := range p {
+			all = append(all, o)
+			if o.Op == "SetLevel" {
+				sets = append(sets, o)
+			}
+		}
+	}
+	var out []cop
+	for k := 1 + g.r.IntN(2); k > 0; k-- {
+		switch x := g.r.IntN(10); {
+		case x < 4 && len(sets) > 0:
+			out = append(out, sets[g.r.IntN(len(sets))])
+		case x < 6:
+			out = append(out, all[g.r.IntN(len(all))])
+		case x < 8:
+			out = append(out, cop{Op: "SetLevel", Level: g.level()})
+		default:
+			out = append(out, cop{Op: "With", Fields: g.fields()})
+		}
+	}
+	return out
+}
+
+// levelRace: goroutines that each set a different level (and maybe add a field), then the
+// level of one of them is requested again.
+func (g *gen) levelRace() (initSpec, [][]cop, []cop) {
+	g.next = 1
+	in := initSpec{Level: g.level(), Fields: []uint64{}}
+	n := 2 + g.r.IntN(2)
+	perm := g.r.Perm(4)
+	progs := make([][]cop, n)
+	for t := range progs {
+		progs[t] = []cop{{Op: "SetLevel", Level: perm[t] - 1}}
+		if g.r.IntN(3) == 0 {
+			progs[t] = append(progs[t], cop{Op: "With", Fields: g.fields()})
+		}
+	}
+	return in, progs, []cop{progs[g.r.IntN(n)][0]}
+}
 
 func (g *gen) progs() (initSpec, [][]cop) {
 	g.next = 1
@@ -704,19 +840,24 @@ func corpus(out *gal.Out) {
 	w1 := func(k uint64) cop { return cop{Op: "With", Fields: []uint64{k}} }
 	info := initSpec{Level: 0, Fields: []uint64{}}
 	// the Coq witnesses of C18_conc_orig_refuted / C18_conc_orig_level_refuted
-	emit(out, "corpus", info, [][]cop{{w1(1)}, {w1(2)}}, []int{0, 1, 0, 1}, roundRobin)
-	emit(out, "corpus", info, [][]cop{{w1(1)}, {{Op: "SetLevel", Level: -1}}}, []int{0, 1, 1, 0}, roundRobin)
+	emit(out, "corpus", info, [][]cop{{w1(1)}, {w1(2)}}, nil, []int{0, 1, 0, 1}, roundRobin)
+	emit(out, "corpus", info, [][]cop{{w1(1)}, {{Op: "SetLevel", Level: -1}}}, nil, []int{0, 1, 1, 0}, roundRobin)
 	// With() without fields stores the loaded pointer itself: the other CAS still succeeds
-	emit(out, "corpus", info, [][]cop{{{Op: "With"}}, {w1(1)}}, []int{0, 1, 0, 1}, roundRobin)
+	emit(out, "corpus", info, [][]cop{{{Op: "With"}}, {w1(1)}}, nil, []int{0, 1, 0, 1}, roundRobin)
 	// ChildLogger between another goroutine's Load and CompareAndSwap, and after its own update
-	emit(out, "corpus", info, [][]cop{{w1(1), {Op: "Child", Fields: []uint64{3}}}, {w1(2), {Op: "Child"}}},
+	emit(out, "corpus", info, [][]cop{{w1(1), {Op: "Child", Fields: []uint64{3}}}, {w1(2), {Op: "Child"}}}, nil,
 		[]int{0, 1, 0, 0, 1, 1, 1}, roundRobin)
-	emit(out, "corpus", info, [][]cop{{{Op: "SetLevel", Level: 2}, {Op: "Child", Fields: []uint64{3}}}, {{Op: "Child", Fields: []uint64{4}}, w1(1)}},
+	emit(out, "corpus", info, [][]cop{{{Op: "SetLevel", Level: 2}, {Op: "Child", Fields: []uint64{3}}}, {{Op: "Child", Fields: []uint64{4}}, w1(1)}}, nil,
 		[]int{0, 1, 1, 0, 1, 0}, roundRobin)
 	dbg := -1
 	emit(out, "corpus", initSpec{Level: 1, Fields: []uint64{9}, Wrap: &dbg},
-		[][]cop{{w1(1), {Op: "SetLevel", Level: 2}}, {w1(2)}, {{Op: "With"}, w1(3)}},
+		[][]cop{{w1(1), {Op: "SetLevel", Level: 2}}, {w1(2)}, {{Op: "With"}, w1(3)}}, nil,
 		[]int{0, 1, 2, 1, 0, 2, 0, 0, 2, 2}, roundRobin)
+	// overlapping SetLevel calls (the first to load retries and ends on top), then the loser's
+	// level is requested again after both have returned; and a field added afterwards
+	sl := func(l int) cop { return cop{Op: "SetLevel", Level: l} }
+	emit(out, "corpus", info, [][]cop{{sl(1)}, {sl(2)}}, []cop{sl(2)}, []int{0, 1, 1, 0, 0, 0}, roundRobin)
+	emit(out, "corpus", info, [][]cop{{sl(-1)}, {sl(2), w1(1)}}, []cop{sl(-1), w1(2)}, []int{1, 0, 0, 1}, roundRobin)
 }
 
 func main() {
@@ -755,18 +896,31 @@ func main() {
 			if pre == nil {
 				pre = c.Sched
 			}
+			// the tail goroutine's steps are not part of the prefix: it runs by itself at the end
+			par := make([]int, 0, len(pre))
+			for _, t := range pre {
+				if t < len(c.Progs) {
+					par = append(par, t)
+				}
+			}
+			pre = par
 			kind := c.Kind
 			if kind == "" {
 				kind = "replay"
 			}
-			emit(out, kind, c.Init, c.Progs, pre, roundRobin)
+			emit(out, kind, c.Init, c.Progs, c.Tail, pre, roundRobin)
 		}
 	case "search":
 		search(out, *budget, 12, time.Duration(*limit)*time.Second)
 	default:
 		for i := 0; i < *n && schedErr == ""; i++ {
 			in, progs := g.progs()
-			emit(out, "random", in, progs, nil, g.picker(i%3))
+			if i%5 == 4 {
+				in, progs, tail := g.levelRace()
+				emit(out, "random", in, progs, tail, nil, g.picker(i%3))
+				continue
+			}
+			emit(out, "random", in, progs, g.tail(progs), nil, g.picker(i%3))
 		}
 	}
 }
